@@ -4,7 +4,7 @@ Require Extraction.
 Require Import ExtrOcamlBasic.
 Extraction Language OCaml.
 Extraction "C16_model.ml" wire_anchor
-  dec32 enc32 dec64 enc64 dec80 nextafter32 nextafter64
+  dec32 enc32 dec64 enc64 dec80 enc80 nextafter32 nextafter64
   flt fgt fle fge feq fne fneg fadd fsub fmul fdiv of_Z pow2 to_sint
   g_is_nan g_is_inf g_is_finite g_abs g_sgn g_min g_max
   g_floor g_ceil g_trunc g_round g_fmod
